@@ -319,6 +319,9 @@ pub fn rotation_script(rng: &mut StdRng, len: usize) -> Vec<J> {
     out
 }
 
+/// bytes of file `seq` that the hook saw fsynced (an image shorter than this can only come from a crash inside rotate())
+fn run_files_synced(files: &BTreeMap<u64, FileSt>, seq: u64) -> u64 { files.get(&seq).map(|f| f.synced_bytes).unwrap_or(0) }
+
 pub fn random_script(rng: &mut StdRng, len: usize, probes: bool) -> Vec<J> {
     let mut out = vec![];
     let kinds = ["cnode", "cnodep", "setp", "deln", "addl", "reml", "cedge", "cedgep", "setep", "dele", "setp", "cnodep", "remp", "remep"];
@@ -371,7 +374,9 @@ pub fn main(o: &Opts) -> i32 {
         let mut run = WalRun::new(&root, mode, *batch);
         out.emit(&json!({"a": "reset", "mode": tlamode, "batch": batch, "st": run.st()}));
         let mut opn = 0usize;
-        for act in script {
+        let mut queue: std::collections::VecDeque<J> = script.iter().cloned().collect();
+        while let Some(act_owned) = queue.pop_front() {
+            let act = &act_owned;
             let a = act["a"].as_str().unwrap();
             match a {
                 "op" | "uop" => {
@@ -391,6 +396,12 @@ pub fn main(o: &Opts) -> i32 {
                     // data records = appends minus the commit marker (if any records were logged)
                     let nrec = if appends > 0 { appends - 1 } else { 0 };
                     out.emit(&json!({"a": a, "i": opn, "kind": act["kind"], "nrec": nrec, "appends": appends, "chg": chg, "fresh": fresh, "st": run.st()}));
+                    // rotation profile: right after a call that rotated the log (new file still empty) the crash images of
+                    // this moment - among them the crash inside rotate() - are probed, every third time followed by a real crash
+                    if maxlog > 0 && run.files.values().next_back().is_some_and(|f| f.n == 0 && f.inrot.is_some()) {
+                        if opn % 3 == 0 { queue.push_front(json!({"a": "open"})); queue.push_front(json!({"a": "crash", "r": opn as u64 * 7 + 3})); }
+                        queue.push_front(json!({"a": "probes", "r": opn as u64}));
+                    }
                 }
                 "sync" => {
                     if run.db.is_none() { continue; }
@@ -476,6 +487,7 @@ pub fn main(o: &Opts) -> i32 {
                         (*seq, c)
                     }).collect();
                     let img = WalRun::img_of(&disk, &bytes);
+                    let files_before = run.files.clone();
                     // the image becomes the live directory of the next generation
                     let old = run.dir();
                     run.gen_ += 1;
@@ -490,7 +502,8 @@ pub fn main(o: &Opts) -> i32 {
                     hook::enable(true);
                     hook::take();
                     let _ = std::fs::remove_dir_all(&old);
-                    out.emit(&json!({"a": "crash", "img": img}));
+                    let inrot = bytes.iter().any(|(seq, len)| run_files_synced(&files_before, *seq) > *len);
+                    out.emit(&json!({"a": "crash", "img": img, "inrot": inrot}));
                 }
                 "probes" => {
                     if run.db.is_none() { continue; }
@@ -522,7 +535,8 @@ pub fn main(o: &Opts) -> i32 {
                     for bytes in cands {
                         let (ok, d) = run.open_image(&bytes, None, &dst);
                         let m = if ok { run.matches(&d) } else { vec![] };
-                        out.emit(&json!({"a": "probe", "img": WalRun::img_of(&disk, &bytes), "flip": [0, 0], "ok": ok, "match": m, "info": if ok { "".to_string() } else { d }}));
+                        let inrot = bytes.iter().any(|(seq, len)| run_files_synced(&run.files, *seq) > *len);
+                        out.emit(&json!({"a": "probe", "img": WalRun::img_of(&disk, &bytes), "flip": [0, 0], "ok": ok, "match": m, "inrot": inrot, "info": if ok { "".to_string() } else { d }}));
                         nprobes += 1;
                     }
                     // single-bit flips on the complete on-disk image
